@@ -104,7 +104,15 @@ impl Scenario for C08 {
         cx.event("phaseB", &(addr.0, t, gens::state_index(prior_state)));
         cx.note(|| format!("--- faults stop; prior state {prior_state:?}, prior type {prior_type:?}; new controller ({:#06x}, {t:?})", addr.0));
         let bus = Rc::new(RefCell::new(DirectBus(world.clone())));
-        let sign = Sign::new(bus, addr, t);
+        let sign = Sign::new(bus.clone(), addr, t);
+        // A caller's lazy page source may consult the bus (progress display, another sign ...):
+        // the bus must be free whenever the page list is advanced.
+        let cxp = cx.clone();
+        let probe = move || {
+            if bus.try_borrow_mut().is_err() {
+                cxp.fail("C08/bus-held-while-page-list-is-advanced", "the shared bus was still mutably borrowed when send_pages asked the page list for its next page; a lazy page source that looks at the bus would panic here".to_string());
+            }
+        };
         cx.set_nontrivial();
 
         let rounds = 1 + cx.draw(2);
@@ -168,7 +176,12 @@ impl Scenario for C08 {
             for _ in 0..sends {
                 let pages = gens::pages(cx, t, 4);
                 cx.probe(&format!("pages_sent:{}", pages.len()));
-                let out = ops::apply(&sign, &Op::SendPages(pages.clone()));
+                let out = if cx.chance(1, 3) {
+                    cx.probe("page_list_that_looks_at_the_bus");
+                    ops::apply_probed(&sign, &Op::SendPages(pages.clone()), &probe)
+                } else {
+                    ops::apply(&sign, &Op::SendPages(pages.clone()))
+                };
                 cx.event("send", &(pages.len(), &out));
                 cx.note(|| format!("send_pages({} pages) -> {out:?}", pages.len()));
                 let want = Outcome::OkStyle(flip == PageFlipStyle::Automatic);
